@@ -158,8 +158,17 @@ def cli_matrix(ctx: Ctx) -> None:
         o = Path(outside) / "o.py"
         o.write_text("x = int(0)\n")
         base = {}
+        syn = Path(td) / "syn.py"
+        syn.write_text("def f(:\n    pass\n")
+        semerr = Path(td) / "dup_mod" / "a.py"
+        semerr.parent.mkdir()
+        semerr.write_text("x = 1\n")
+        # reports that are plain lines rather than diagnostics: a blocking Mypy error that carries a file
+        # location, Mypy refusing two files of one module name, the --debug tree dump, a refused setting
         for files, tag in (([str(a), str(bfile)], "in-cwd"), ([str(clean)], "clean"), ([str(o)], "outside-cwd"),
-                           ([str(a), str(Path(td) / "missing.py")], "with-missing")):
+                           ([str(a), str(Path(td) / "missing.py")], "with-missing"), ([str(syn)], "syntax-error"), ([str(a), str(syn)], "diag+syntax-error"),
+                           ([str(a), str(semerr)], "duplicate-module"), ([str(clean), "--debug"], "debug-clean"), ([str(clean), "--enable", "nonsense"], "bad-setting"),
+                           ([str(clean), "--python-version", "3.x"], "bad-version")):
             for fmt in ("text", "github"):
                 for quiet in (False, True):
                     for sort in ("filename", "error"):
@@ -226,7 +235,10 @@ def perturb(ctx: Ctx) -> None:
                 try:
                     tree = Perturb(inj).visit(ast.parse(Path(sp).read_text()))
                     src = ast.unparse(ast.fix_missing_locations(tree))
-                    compile(src, "p", "exec")
+                    import warnings
+                    with warnings.catch_warnings():
+                        warnings.simplefilter("ignore")
+                        compile(src, "p", "exec")
                 except Exception:  # noqa: BLE001
                     continue
                 p = Path(td) / f"{tag}_{Path(sp).name}"
